@@ -19,7 +19,7 @@ INFO = {
 
 KINDS = ['small', 'large', 'empty', 'binary', 'streamed', 'ctx', 'redirect', 'raise403', 'ret404', 'boom', 'unknown', 'wrongmethod',
          'slashredirect', 'static-text', 'static-binary', 'static-empty', 'static-noext', 'static-missing', 'static-304', 'meta', 'metajson',
-         'status201', 'status204', 'unicode', 'nb403', 'form']
+         'status201', 'status204', 'unicode', 'nb403', 'form', 'slashredirect-rawquery', 'small-rawquery']
 METHODS = ['GET', 'HEAD', 'POST', 'OPTIONS']
 HEADERSETS = [{}, {'Accept': 'text/html', 'Accept-Encoding': 'gzip'}, {'Accept': 'application/json', 'Accept-Encoding': 'identity', 'Cookie': 'a=b'},
               {'Accept': '*/*', 'Accept-Encoding': 'gzip, deflate', 'User-Agent': 'zq/1.0', 'Referer': 'http://x/'}]
@@ -84,7 +84,8 @@ def scenario_app(base, debug, processed):
 def request_for(kind, method):
     path = {'unknown': '/no/such', 'slashredirect': '/branch', 'static-text': '/static/t.txt', 'static-binary': '/static/b.bin',
             'static-empty': '/static/e.txt', 'static-noext': '/static/noext', 'static-missing': '/static/nope.txt',
-            'static-304': '/static/t.txt', 'meta': '/_meta/', 'metajson': '/_meta/json/'}.get(kind, '/' + kind)
+            'static-304': '/static/t.txt', 'meta': '/_meta/', 'metajson': '/_meta/json/', 'slashredirect-rawquery': '/branch',
+            'small-rawquery': '/small'}.get(kind, '/' + kind)
     body = b''
     headers = {}
     if method == 'POST':
@@ -93,10 +94,10 @@ def request_for(kind, method):
     return path, body, headers
 
 
-def check_conformance(ctx, app, path, method, headers, body, what, rc, use_validator=True):
+def check_conformance(ctx, app, path, method, headers, body, what, rc, use_validator=True, query=''):
     """own recorder + (optionally) the standard library validator; returns the recorded response"""
     FileSpy.opened = []
-    env = make_environ(path, method, headers=headers, body=body, extra={'wsgi.file_wrapper': FileSpy})
+    env = make_environ(path, method, query, headers=headers, body=body, extra={'wsgi.file_wrapper': FileSpy})
     state = {'sr': 0, 'chunks_at_sr': None}
     r = Resp()
     r.sr_calls, r.exc, r.closed, r.chunks, r.status, r.status_line, r.headers, r.body = [], None, None, [], None, None, [], b''
@@ -208,7 +209,8 @@ def kind_case(ctx, app, case, base):
         lm = [v for k, v in first.headers if k.lower() == 'last-modified']
         if lm:
             headers['If-Modified-Since'] = lm[0]
-    r = check_conformance(ctx, app, path, method, headers, body, what, case, use_validator=kind not in ('status204', 'static-304'))
+    query = 'q=caf\xc3\xa9&r=\xff' if kind.endswith('rawquery') else ('' if case['headers'] % 2 == 0 else 'a=1&b=%20x')
+    r = check_conformance(ctx, app, path, method, headers, body, what, case, use_validator=kind not in ('status204', 'static-304'), query=query)
     if r is None:
         return
     ctx.event('status-%s' % r.status)
